@@ -181,6 +181,23 @@ Family(const std::string &f, int lk)
     add(Programs(plain, 3, 2));
   } else if (f == "p3x2c") {  // one converting thread with 2 sections, two plain threads with <=2
     add(Cross({"U", "D"}, plain, 2, 2));
+  } else if (f == "rrw") {  // two single-section threads and one thread with two sections (small selection)
+    for (auto &x : {"S | S", "S | SIX", "S | X", "SIX | X"})
+      for (auto &y : {"X X", "X D", "U X", "X S", "D X"}) {
+        std::string a = x;
+        std::string t0 = a.substr(0, a.find(" | ")), t1 = a.substr(a.find(" | ") + 3);
+        std::string b = y;
+        std::string s0 = b.substr(0, b.find(' ')), s1 = b.substr(b.find(' ') + 1);
+        out.push_back(Sec(t0) + " | " + Sec(t1) + " | " + Sec(s0) + " " + Sec(s1));
+      }
+  } else if (f == "p3x2w") {  // two single-section threads + one thread with two sections
+    Strs two;
+    for (auto &x : base)
+      for (auto &y : base) two.push_back(Sec(x) + " " + Sec(y));
+    Strs singles, cur;
+    Multisets(Scripts(plain, 1), 2, 0, cur, singles);
+    for (auto &sg : singles)
+      for (auto &t : two) out.push_back(sg + " | " + t);
   } else if (f == "p4x1") {
     add(Programs(base, 4, 1));
   } else if (f == "conv2") {
